@@ -110,9 +110,12 @@ Definition snoc_repeat (acc : list pat) (ch : Z) : list pat :=
   | _ => acc ++ [PSingle (CChar ch)]
   end.
 
-(* the for-loop of parsePattern; result = (Patterns, MustTail) *)
-Fixpoint parse_loop (fuel : nat) (s : scst) (toplevel : bool) (acc : list pat) (tail : bool)
-  : pres (list pat * bool) :=
+Definition maxCaptures : Z := 32.
+
+(* the for-loop of parsePattern; nc = scanner.captures (captures opened so far);
+   result = (Patterns, MustTail, captures) *)
+Fixpoint parse_loop (fuel : nat) (s : scst) (toplevel : bool) (acc : list pat) (tail : bool) (nc : Z)
+  : pres (list pat * bool * Z) :=
   match fuel with
   | O => PFuel
   | S f =>
@@ -124,56 +127,59 @@ Fixpoint parse_loop (fuel : nat) (s : scst) (toplevel : bool) (acc : list pat) (
         if c2 =? 48 then PErr                                   (* invalid capture index *)
         else if inr 49 c2 57 then
           let '(d, s4) := sc_next s3 in
-          parse_loop f s4 toplevel (acc ++ [PNumber (d - 48)]) tail
+          parse_loop f s4 toplevel (acc ++ [PNumber (d - 48)]) tail nc
         else if c2 =? 98 then
           let '(_, s4) := sc_next s3 in
           let '(b, s5) := sc_next s4 in
           let '(e, s6) := sc_next s5 in
-          parse_loop f s6 toplevel (acc ++ [PBrace b e]) tail
+          parse_loop f s6 toplevel (acc ++ [PBrace b e]) tail nc
         else
           match parse_class_top saved with
-          | POk c s4 => parse_loop f s4 toplevel (acc ++ [PSingle c]) tail
+          | POk c s4 => parse_loop f s4 toplevel (acc ++ [PSingle c]) tail nc
           | PErr => PErr
           | PFuel => PFuel
           end
       else if (ch =? 46) || (ch =? 91) || (ch =? 93) then       (* '.', '[', ']' *)
         match parse_class_top s1 with
-        | POk c s4 => parse_loop f s4 toplevel (acc ++ [PSingle c]) tail
+        | POk c s4 => parse_loop f s4 toplevel (acc ++ [PSingle c]) tail nc
         | PErr => PErr
         | PFuel => PFuel
         end
       else if ch =? 41 then                                     (* ')' *)
-        if toplevel then PErr else POk (acc, tail) s1
+        if toplevel then PErr else POk (acc, tail, nc) s1
       else if ch =? 40 then                                     (* '(' *)
         let '(_, s2) := sc_next s1 in
+        let nc1 := nc + 1 in
+        if nc1 >? maxCaptures then PErr                         (* too many captures *)
+        else
         let '(c2, s3) := sc_peek s2 in
         if c2 =? 41 then
           let '(_, s4) := sc_next s3 in
-          parse_loop f s4 toplevel (acc ++ [PPosCap]) tail
+          parse_loop f s4 toplevel (acc ++ [PPosCap]) tail nc1
         else
-          match parse_loop f s3 false [] false with
-          | POk (sub, _) s4 =>
+          match parse_loop f s3 false [] false nc1 with
+          | POk (sub, _, nc2) s4 =>
               let '(c3, s5) := sc_peek s4 in
               if negb (c3 =? 41) then PErr                      (* unfinished capture *)
               else
                 let '(_, s6) := sc_next s5 in
-                parse_loop f s6 toplevel (acc ++ [PCap sub]) tail
+                parse_loop f s6 toplevel (acc ++ [PCap sub]) tail nc2
           | PErr => PErr
           | PFuel => PFuel
           end
       else if (ch =? 42) || (ch =? 43) || (ch =? 45) || (ch =? 63) then   (* * + - ? *)
         let '(_, s2) := sc_next s1 in
-        parse_loop f s2 toplevel (snoc_repeat acc ch) tail
+        parse_loop f s2 toplevel (snoc_repeat acc ch) tail nc
       else if ch =? 36 then                                     (* '$' *)
         let istail := toplevel && ((sc_nextpos s1 =? len src - 1) || (sc_nextpos s1 =? EOS)) in
         let '(_, s2) := sc_next s1 in
-        if istail then parse_loop f s2 toplevel acc true
-        else parse_loop f s2 toplevel (acc ++ [PSingle (CChar ch)]) tail
+        if istail then parse_loop f s2 toplevel acc true nc
+        else parse_loop f s2 toplevel (acc ++ [PSingle (CChar ch)]) tail nc
       else if ch =? EOS then
-        let '(_, s2) := sc_next s1 in POk (acc, tail) s2
+        let '(_, s2) := sc_next s1 in POk (acc, tail, nc) s2
       else
         let '(_, s2) := sc_next s1 in
-        parse_loop f s2 toplevel (acc ++ [PSingle (CChar ch)]) tail
+        parse_loop f s2 toplevel (acc ++ [PSingle (CChar ch)]) tail nc
   end.
 End Scanner.
 
@@ -191,8 +197,8 @@ Definition parse_fuel (src : bytes) : nat := length src + 2.
 Definition goParse (src : bytes) : parse_result :=
   let '(ch, s1) := sc_peek src sc_init in
   let '(head, s2) := if ch =? 94 then (true, snd (sc_next src s1)) else (false, s1) in
-  match parse_loop src (parse_fuel src) s2 true [] false with
-  | POk (l, tail) _ => ParseOk (mkSeq head tail l)
+  match parse_loop src (parse_fuel src) s2 true [] false 0 with
+  | POk (l, tail, _) _ => ParseOk (mkSeq head tail l)
   | PErr => ParseErr
   | PFuel => ParseFuel
   end.
